@@ -218,6 +218,9 @@ def run(ctx: Ctx) -> None:
     with ctx.only("T9.crop-family"):  # "origin is the position of sample 0" also for grids derived by crop / pad / ROI / pooling (shared with C03)
         t9_derived.run_derived(ctx)
     ctx.floor("T9.crop-family", 100)
+    with ctx.only("T1.two-grids"):  # WORLD -> index *of another grid* (to_grid=), also one covering the same domain (shared with C01)
+        t1_grid.run_grid_tables(ctx)
+    ctx.floor("T1.two-grids", 64)
     ctx.floor("T1.itk-singleton", 5)
     ctx.floor("T1.itk", 16)
     ctx.floor("T1.itk-header", 4)
@@ -249,6 +252,7 @@ def mutants(prog):
         ("GridAttrs: center route sign", "deepali.utils.simpleitk.grid", "GridAttrs.__init__", "np.asanyarray(center) - np.matmul(rotation @ scaling, offset)", "np.asanyarray(center) + np.matmul(rotation @ scaling, offset)", "T1.itk-attrs"),
         ("pool: origin by floor division", G, "Grid.pool", "ks.sub(1).div(2)", "ks.sub(1).div(2).floor()", "T9.crop-family"),
         ("GridAttrs: nearest index by truncation", "deepali.utils.simpleitk.grid", "GridAttrs.physical_space_to_index", "index: np.ndarray = np.round(self.physical_space_to_continuous_index(points))", "index: np.ndarray = self.physical_space_to_continuous_index(points) + 0.5", "T1.itk-attrs"),
+        ("two-grid shortcut for grids of the same domain", G, "Grid.transform", "if to_grid is None or to_grid == self:", "if to_grid is None or to_grid == self or to_grid.same_domain_as(self):", "T1.two-grids"),
     ]
     for name, mod, fn, old, new, expect in specs:
         ov = source_sub(prog, mod, fn, old, new)
